@@ -426,7 +426,8 @@ MSG_RULE = ("random well-typed messages of every checked-in generated type witho
             "presence-with-default, nil/empty/present sub-messages, nested to depth 3, payload lengths around 0/1/127/128/16383/16384); "
             "non-trivial = at least one non-default slot; distinct = distinct (type, value) strings")
 DEC_RULE = ("encodings of random messages (picobuf's and the reference encoder's) closed under meaning-preserving rewrites "
-            "(permute, pack/unpack/mixed, non-minimal varints, split sub-message, inject unknown fields/groups) for the valid stream; "
+            "(permute, pack/unpack/mixed, non-minimal varints, 32-bit kinds in varints with bits above bit 31, an earlier occurrence of a singular scalar, split sub-message, inject unknown fields/groups) for the valid stream; "
+            "half of the Unmarshal calls come right after a rejected input of the same type; "
             "prefixes, byte/token corruptions, short token strings and random bytes for the malformed stream; non-trivial = non-empty input")
 
 
